@@ -110,8 +110,23 @@ def foreign_parse(ctx, nodes, spec, inp, root):
     recs = C05.listing(nodes, spec, members)
     n = len(recs)
     size = 1 if n < 256 else 2
-    for stored in ('all', 'exotic-only'):
-        store = [True] * n if stored == 'all' else [nodes[i][0] != G.ORD for i in members]
+    import copy, random
+    true_recs = recs
+    for stored in ('all', 'exotic-only', 'bogus'):
+        store = [nodes[i][0] != G.ORD for i in members] if stored == 'exotic-only' else [True] * n
+        recs = true_recs
+        if stored == 'bogus':
+            # the records store ARBITRARY hashes / depths (right count and size): the stored values are a cache a reader may skip
+            # or verify - the parsed cells must report the hashes of their CONTENT (or the bag must be refused), at every level,
+            # also for exotic cells and inside Merkle cells
+            rr = random.Random(repr(nodes))
+            recs = copy.deepcopy(true_recs)
+            for r in recs:
+                if rr.random() < 0.7:
+                    r['hashes'] = [rr.randbytes(32) if rr.random() < 0.8 else h for h in r['hashes']]
+                    r['depths'] = [rr.randrange(0, 1024) if rr.random() < 0.8 else d for d in r['depths']]
+            if all(a['hashes'] == b['hashes'] and a['depths'] == b['depths'] for a, b in zip(recs, true_recs)):
+                continue
         tot = sum(len(C05.enc_record(r, size, st)) for r, st in zip(recs, store))
         fr = dict(magic='g', size=size, off=max(1, (tot.bit_length() + 7) // 8), idx=False, crc=False, cache=False, store=store, cflags=[])
         data = C05.py_encode(recs, [0], fr)
@@ -119,6 +134,9 @@ def foreign_parse(ctx, nodes, spec, inp, root):
         try:
             back = Cell.one_from_boc(data)
         except Exception as e:
+            if stored == 'bogus':
+                ctx.count('boc-foreign-bogus-refused')
+                continue            # refusing a bag whose stored hashes are wrong is allowed
             ctx.fail('parse-foreign', f'a conforming bag with stored hashes ({stored}) of a spec-valid exotic tree is refused: {type(e).__name__}',
                      dict(inp, boc=data.hex()[:4000]), repr(e), 'cell')
             return
